@@ -108,8 +108,11 @@ class MustAnalysis:
             f, p = self.simple(st.test, facts)
             ft = self.branch(st.test, True, f) if self.branch else f
             ff = self.branch(st.test, False, f) if self.branch else f
-            o1 = self.block(st.body, ft)
-            o2 = self.block(st.orelse, ff) if st.orelse else Out(ff)
+            o1 = self.block(st.body, ft) if ft is not None else Out(None)
+            if ff is None:
+                o2 = Out(None)
+            else:
+                o2 = self.block(st.orelse, ff) if st.orelse else Out(ff)
             return Out(_meet(o1.normal, o2.normal), p + o1.pending + o2.pending)
         if isinstance(st, (ast.While, ast.For, ast.AsyncFor)):
             return self.loop(st, facts)
